@@ -86,7 +86,7 @@ def object_specs(rng, n_random, tier, kinds=None, with_tables=True):
     specs = []
     kinds = kinds or ['Discretizer', 'QuantitativeDiscretizer', 'QualitativeDiscretizer', 'BinaryCarver', 'ContinuousCarver']
     for i in range(n_random):
-        case = zoo.random_case(rng, degenerate=(i % 4 == 3), variants=True)
+        case = zoo.random_case(rng, degenerate=(zoo.DEGENERATE[(i // 4) % len(zoo.DEGENERATE)] if i % 4 == 3 else False), variants=True)          # every degenerate archetype in turn
         cfg = dict(rng.choice(zoo.CONFIGS)); cfg['min_freq_mod'] = None
         if i % 6 == 5 or i % 10 == 3: cfg['str_nan'] = 'MISSING'; cfg['str_default'] = 'AUTRES'
         if i % 5 == 3: cfg['n_jobs'] = 2                                   # parallel branch (run with an in-process pool, see build)
@@ -96,6 +96,11 @@ def object_specs(rng, n_random, tier, kinds=None, with_tables=True):
             if case['X_dev'] is not None:
                 idx2 = [j * 2 + 1000 for j in range(len(case['X_dev']))]; case['X_dev'].index = idx2; case['y_dev'].index = idx2
         ks = [k for k in kinds if applicable(k, case)]
+        if i % 4 == 3:
+            # a degenerate column goes through a carver AND a plain discretizer (both when applicable)
+            for grp in ([k for k in ks if 'Carver' in k], [k for k in ks if 'Carver' not in k]):
+                if grp: specs.append((rng.choice(grp), case, cfg))
+            continue
         specs.append((rng.choice(ks), case, cfg))
     if 'MulticlassCarver' in kinds:
         for _ in range(max(2, n_random // 12)):
